@@ -115,17 +115,22 @@ pub fn expr_to_source(spanned_expr: &SpannedExpr) -> String {
         Expr::Output { expr } => format!("output {}", expr_to_source(expr)),
         Expr::Call { func, args } => {
             let args_str: Vec<String> = args.iter().map(expr_to_source).collect();
-            let func_str = match &func.node {
-                // Wrap lambdas in parentheses when used in call position
-                Expr::Lambda { .. } => format!("({})", expr_to_source(func)),
-                _ => expr_to_source(func),
-            };
+            // Wrap lambdas (and other non-postfix expressions) in parentheses when used in call position
+            let func_str = wrap_if(needs_parens_in_postfix(func), expr_to_source(func));
             format!("{}({})", func_str, args_str.join(", "))
         }
         Expr::Access { expr, index } => {
-            format!("{}[{}]", expr_to_source(expr), expr_to_source(index))
+            format!(
+                "{}[{}]",
+                wrap_if(needs_parens_in_postfix(expr), expr_to_source(expr)),
+                expr_to_source(index)
+            )
         }
-        Expr::DotAccess { expr, field } => format!("{}.{}", expr_to_source(expr), field),
+        Expr::DotAccess { expr, field } => format!(
+            "{}.{}",
+            wrap_if(needs_parens_in_postfix(expr), expr_to_source(expr)),
+            field
+        ),
         Expr::BinaryOp { op, left, right } => {
             let op_str = binary_op_to_source(op);
             let left_str = if needs_parens_in_binop(op, left, true) {
@@ -142,11 +147,19 @@ pub fn expr_to_source(spanned_expr: &SpannedExpr) -> String {
         }
         Expr::UnaryOp { op, expr } => {
             let op_str = unary_op_to_source(op);
-            format!("{}{}", op_str, expr_to_source(expr))
+            format!(
+                "{}{}",
+                op_str,
+                wrap_if(needs_parens_in_prefix(expr), expr_to_source(expr))
+            )
         }
         Expr::PostfixOp { op, expr } => {
             let op_str = postfix_op_to_source(op);
-            format!("{}{}", expr_to_source(expr), op_str)
+            format!(
+                "{}{}",
+                wrap_if(needs_parens_in_postfix(expr), expr_to_source(expr)),
+                op_str
+            )
         }
         Expr::Spread(expr) => format!("...{}", expr_to_source(expr)),
     }
@@ -216,6 +229,12 @@ pub fn needs_parens_in_binop(
     child_expr: &SpannedExpr,
     is_left: bool,
 ) -> bool {
+    // A left operand whose text ends in a conditional, lambda or assignment would
+    // swallow the operator that follows it
+    if is_left && ends_with_open_term(child_expr) {
+        return true;
+    }
+
     match &child_expr.node {
         Expr::BinaryOp { op: child_op, .. } => {
             let (parent_prec, parent_assoc) = operator_info(parent_op);
@@ -237,6 +256,55 @@ pub fn needs_parens_in_binop(
             }
         }
         _ => false,
+    }
+}
+
+/// Check if the printed form of an expression ends in a term that extends as far to
+/// the right as possible (conditional, lambda, assignment), so that an operator
+/// written after it would be parsed as part of that term
+fn ends_with_open_term(expr: &SpannedExpr) -> bool {
+    match &expr.node {
+        Expr::Conditional { .. }
+        | Expr::Lambda { .. }
+        | Expr::Assignment { .. }
+        | Expr::Output { .. } => true,
+        Expr::BinaryOp { op, right, .. } => {
+            !needs_parens_in_binop(op, right, false) && ends_with_open_term(right)
+        }
+        Expr::UnaryOp { expr, .. } => !needs_parens_in_prefix(expr) && ends_with_open_term(expr),
+        Expr::Spread(expr) => ends_with_open_term(expr),
+        _ => false,
+    }
+}
+
+/// Check if the operand of a prefix operator needs parentheses.
+/// Prefix operators bind tighter than every binary operator.
+pub fn needs_parens_in_prefix(child_expr: &SpannedExpr) -> bool {
+    matches!(&child_expr.node, Expr::BinaryOp { .. })
+}
+
+/// Check if the operand of a postfix operator (factorial, call, index or field
+/// access) needs parentheses. Postfix operators bind tighter than everything else.
+pub fn needs_parens_in_postfix(child_expr: &SpannedExpr) -> bool {
+    match &child_expr.node {
+        Expr::BinaryOp { .. }
+        | Expr::UnaryOp { .. }
+        | Expr::Spread(_)
+        | Expr::Conditional { .. }
+        | Expr::Lambda { .. }
+        | Expr::Assignment { .. }
+        | Expr::Output { .. } => true,
+        Expr::Number(n) => n.is_sign_negative(),
+        _ => false,
+    }
+}
+
+/// Wrap already printed source text in parentheses if required
+fn wrap_if(needs_parens: bool, source: String) -> String {
+    if needs_parens {
+        format!("({})", source)
+    } else {
+        source
     }
 }
 
@@ -370,11 +438,25 @@ pub fn expr_to_source_with_scope(
                 UnaryOp::Not => "!",
                 UnaryOp::Invert => "~",
             };
-            format!("{}{}", op_str, expr_to_source_with_scope(expr, scope))
+            format!(
+                "{}{}",
+                op_str,
+                wrap_if(
+                    needs_parens_in_prefix(expr),
+                    expr_to_source_with_scope(expr, scope)
+                )
+            )
         }
         Expr::PostfixOp { op, expr } => {
             let op_str = postfix_op_to_source(op);
-            format!("{}{}", expr_to_source_with_scope(expr, scope), op_str)
+            format!(
+                "{}{}",
+                wrap_if(
+                    needs_parens_in_postfix(expr),
+                    expr_to_source_with_scope(expr, scope)
+                ),
+                op_str
+            )
         }
         Expr::Spread(expr) => format!("...{}", expr_to_source_with_scope(expr, scope)),
         Expr::Assignment { ident, value } => {
@@ -388,24 +470,32 @@ pub fn expr_to_source_with_scope(
                 .iter()
                 .map(|e| expr_to_source_with_scope(e, scope))
                 .collect();
-            let func_str = match &func.node {
-                // Wrap lambdas in parentheses when used in call position
-                Expr::Lambda { .. } => {
-                    format!("({})", expr_to_source_with_scope(func, scope))
-                }
-                _ => expr_to_source_with_scope(func, scope),
-            };
+            // Wrap lambdas (and other non-postfix expressions) in parentheses when used in call position
+            let func_str = wrap_if(
+                needs_parens_in_postfix(func),
+                expr_to_source_with_scope(func, scope),
+            );
             format!("{}({})", func_str, args_str.join(", "))
         }
         Expr::Access { expr, index } => {
             format!(
                 "{}[{}]",
-                expr_to_source_with_scope(expr, scope),
+                wrap_if(
+                    needs_parens_in_postfix(expr),
+                    expr_to_source_with_scope(expr, scope)
+                ),
                 expr_to_source_with_scope(index, scope)
             )
         }
         Expr::DotAccess { expr, field } => {
-            format!("{}.{}", expr_to_source_with_scope(expr, scope), field)
+            format!(
+                "{}.{}",
+                wrap_if(
+                    needs_parens_in_postfix(expr),
+                    expr_to_source_with_scope(expr, scope)
+                ),
+                field
+            )
         }
     }
 }
